@@ -45,6 +45,7 @@ func verifyFunction(P *Program, key string) (res *FuncResult) {
 	x.root = fn
 	x.rootCtr = ctr
 	if ctr != nil {
+		x.rootFresh = x.expandKeys(ctr.Fresh)
 		for _, l := range ctr.Lemmas {
 			if l == "bvarith" {
 				x.bvArith = true
